@@ -89,6 +89,16 @@ CLAIMS = {
         'before each edit, and both schedules must end in the identical source and tree.',
    note='Trusted: Coq kernel/vm_compute; hand model Cache.v (tied to the real cache/flush set by correspondence); a fresh FST(root.src) as reference observer. No axioms.',
    design='DESIGN.md section 4 C02'),
+ 'C17': dict(
+   technique='Coq proof: backtracking list matcher accepts exactly the regular language (flat + fixed-length sub-list quantifiers); pre-filter soundness => search = filtered walk; correspondence model/real/re over an exhaustive family; structure oracles',
+   text='Proved (closed): for every sequence of element patterns and quantifiers over fixed-length sub-lists (any bounds, greedy/lazy) and every target sequence the transcribed '
+        'matcher accepts exactly the regular language of the pattern (match_items_accepts_lang); the transcribed _leaf_asts pre-filter never hides a matching node, so search = '
+        'walk filtered by match; the unrepaired MNOT complement rule is refuted by a witness. Both defects were repaired in /repo (fix commits). Partial: capture priority, '
+        'quantified sub-lists containing quantifiers, back-references, node/primitive matchers and layout independence are decided by correspondence with re.fullmatch '
+        '(accept/reject + repetition counts over the pattern-sequence x element-sequence family) and by oracles (search vs filtered walk for 20 combinator patterns, self-match, '
+        'one-leaf difference, formatted vs pure AST vs re-layout, repeated calls).',
+   note='Trusted: Coq kernel/vm_compute; hand model Match.v tied by correspondence; Python re as reference for quantifier sequences (OH3). No axioms.',
+   design='DESIGN.md section 4 C17'),
 }
 
 checks = []
